@@ -47,7 +47,7 @@ func (e *Env) newExec(prefix []int, pending *[][]int) *Exec {
 	return &Exec{
 		Cfg: e.Cfg, dec: append([]int(nil), prefix...), pending: pending,
 		Bounded: map[string]int{}, lenChoice: map[string]int{}, globals: map[*ssa.Global]*Cell{}, UsedContracts: map[string]bool{}, Externals: map[string]bool{},
-		forceMemo: map[*LazyV]Val{}, sliceMemo: map[*LazyV]*SliceV{},
+		forceMemo: map[*LazyV]Val{}, sliceMemo: map[*LazyV]*SliceV{}, opaqueRedo: map[string][]func(){},
 		siteCount: map[string]int{}, worldBase: "",
 	}
 }
@@ -222,12 +222,19 @@ func (e *Env) VerifyFunc(fn *ssa.Function, ct *Contract, maxPaths int) *FuncResu
 	paths, capped := e.Explore(maxPaths, func(ex *Exec) {
 		ex.TopKey = fkey
 		args, ev, _ := e.bindArgs(ex, fn, ct)
+		e.snapshotOld(ex, fn, args, ev)
 		if ct != nil {
 			for _, r := range ct.Requires {
-				ex.assume(ev.bool(r.Expr))
+				r := r
+				// evaluated over the entry snapshot so that a later re-evaluation (after a
+				// collection is revealed) still speaks about the entry state
+				ex.assumeSpec(func() *smt.Term {
+					ev.inOld = true
+					defer func() { ev.inOld = false }()
+					return ev.bool(r.Expr)
+				})
 			}
 		}
-		e.snapshotOld(ex, fn, args, ev)
 		if ct != nil {
 			e.evalLets(ct, ev, true)
 		}
@@ -258,18 +265,23 @@ func (e *Env) VerifyFunc(fn *ssa.Function, ct *Contract, maxPaths int) *FuncResu
 		}
 		e.bindResults(fn, res, ev)
 		e.evalLets(ct, ev, false)
-		// the preconditions again, over the entry snapshot: collections the body looked into
-		// are now revealed, so opaque folds in the preconditions get their definitions
-		ev.inOld = true
-		for _, r := range ct.Requires {
-			ex.assume(ev.bool(r.Expr))
-		}
-		ev.inOld = false
 		for _, c := range ct.Ensures {
 			ex.oblige(fkey+"/ensures:"+c.Name, ev.bool(c.Expr), "")
+			// vacuity guard: the antecedent of the clause must be reachable on some path
+			if len(c.Expr.Ante) > 0 {
+				var antes []*smt.Term
+				for _, a := range c.Expr.Ante {
+					antes = append(antes, ex.term(ev.eval(a).V))
+				}
+				ante := ex.simplifyUnder(smt.And(antes...))
+				if !ante.IsFalse() {
+					ex.Obligs = append(ex.Obligs, &Oblig{Cover: true, Name: fkey + "/cover:" + c.Name, Hyps: append([]*smt.Term(nil), ex.pc...), Goal: smt.Not(ante), Path: ex.pathString()})
+				}
+			}
 		}
 		if ct.HasMod {
 			e.frameObligations(ex, fn, ct, ev, args)
+			e.heapFrame(ex, fn, ct, ev, args)
 		}
 	})
 	fr.Paths = paths
@@ -558,11 +570,7 @@ func (ex *Exec) applyContractSig(fr *frame, calleeKey string, pkg *types.Package
 		case "bankaddr":
 			addrs = append(addrs, ex.term(ev.eval(m.Expr).V))
 		case "ptr":
-			p, ok := ex.force(ev.eval(m.Expr).V).(*PtrV)
-			if !ok {
-				ex.abort("modifies *%s: not a pointer", exprString(m.Expr))
-			}
-			ptrs = append(ptrs, p)
+			ptrs = append(ptrs, ev.heapTarget(m.Expr))
 		}
 	}
 	for _, m := range mods {
@@ -637,3 +645,228 @@ func (ex *Exec) applyContractSig(fr *frame, calleeKey string, pkg *types.Package
 }
 
 var _ = types.Typ
+
+// heapTarget resolves a `modifies *p` / `modifies *p.Field` item to the pointer it names.
+func (ev *evalEnv) heapTarget(e ast.Expr) *PtrV {
+	ex := ev.ex
+	if sel, ok := e.(*ast.SelectorExpr); ok {
+		base := ev.heapTarget(sel.X)
+		st, ok := base.T.Underlying().(*types.Struct)
+		if !ok {
+			ev.fail(e, "modifies: %s is not a struct", exprString(sel.X))
+		}
+		for i := 0; i < st.NumFields(); i++ {
+			if st.Field(i).Name() == sel.Sel.Name {
+				path := append(append([]int(nil), base.Path...), i)
+				return &PtrV{C: base.C, Path: path, T: st.Field(i).Type()}
+			}
+		}
+		ev.fail(e, "modifies: no field %s", sel.Sel.Name)
+	}
+	p, ok := ex.force(ev.eval(e).V).(*PtrV)
+	if !ok {
+		ev.fail(e, "modifies: not a pointer")
+	}
+	return p
+}
+
+// heapFrame: what a pointer parameter points to may change only where the contract's
+// modifies clause says so. Compared field by field with the entry snapshot.
+func (e *Env) heapFrame(ex *Exec, fn *ssa.Function, ct *Contract, ev *evalEnv, args []Val) {
+	mods, err := parseModifies(ct.Modifies)
+	if err != nil {
+		return
+	}
+	fkey := FuncKey(fn)
+	type tgt struct {
+		c    *Cell
+		path []int
+	}
+	var allowed []tgt
+	for _, m := range mods {
+		if m.Kind == "world" && m.Cond == nil {
+			// world does not include the caller's heap
+		}
+		if m.Kind == "ptr" {
+			p := ev.heapTarget(m.Expr)
+			allowed = append(allowed, tgt{p.C, p.Path})
+		}
+	}
+	covered := func(c *Cell, path []int) bool {
+		for _, a := range allowed {
+			if a.c != c || len(a.path) > len(path) {
+				continue
+			}
+			ok := true
+			for i := range a.path {
+				if a.path[i] != path[i] {
+					ok = false
+				}
+			}
+			if ok {
+				return true
+			}
+		}
+		return false
+	}
+	for i, p := range fn.Params {
+		pv, ok := args[i].(*PtrV)
+		if !ok || pv.C == nil {
+			continue
+		}
+		old, ok := ev.oldVars[paramName(p, i)]
+		if !ok {
+			continue
+		}
+		opv, ok := old.V.(*PtrV)
+		if !ok || opv.C == nil {
+			continue
+		}
+		var cmp func(cur, was Val, path []int, name string)
+		cmp = func(cur, was Val, path []int, name string) {
+			if covered(pv.C, path) {
+				return
+			}
+			cs, ok1 := cur.(*StructV)
+			ws, ok2 := was.(*StructV)
+			if ok1 && ok2 && len(cs.F) == len(ws.F) {
+				st, _ := cs.T.Underlying().(*types.Struct)
+				for k := range cs.F {
+					fname := fmt.Sprint(k)
+					if st != nil {
+						fname = st.Field(k).Name()
+					}
+					cmp(cs.F[k], ws.F[k], append(append([]int(nil), path...), k), name+"."+fname)
+				}
+				return
+			}
+			ex.oblige(fkey+"/frame:heap:"+name, ex.sameVal(cur, was), "pointee changed outside modifies")
+		}
+		cmp(pv.C.V, opv.C.V, nil, "*"+paramName(p, i))
+	}
+}
+
+// sameVal: the two values are certainly equal (structurally, without forcing lazies).
+func (ex *Exec) sameVal(a, b Val) *smt.Term {
+	switch x := a.(type) {
+	case *smt.Term:
+		if y, ok := b.(*smt.Term); ok && x.Sort == y.Sort {
+			return smt.Eq(x, y)
+		}
+		if y, ok := b.(*LazyV); ok {
+			if srt, ok := scalarSort(y.T); ok && srt == x.Sort {
+				return smt.Eq(x, y.Nm.Leaf(srt))
+			}
+		}
+	case *LazyV:
+		switch y := b.(type) {
+		case *LazyV:
+			same := x.Nm.Prefix == y.Nm.Prefix && len(x.Nm.Keys) == len(y.Nm.Keys)
+			if same {
+				for i := range x.Nm.Keys {
+					if x.Nm.Keys[i] != y.Nm.Keys[i] {
+						same = false
+					}
+				}
+			}
+			return smt.BoolC(same)
+		case *smt.Term:
+			return ex.sameVal(b, a)
+		case *SliceV, *StructV, *CoinsV, *PtrV:
+			return ex.sameVal(ex.forceAny(x), b)
+		}
+	case *StructV:
+		if y, ok := b.(*LazyV); ok {
+			return ex.sameVal(a, ex.force(y))
+		}
+		if y, ok := b.(*StructV); ok && len(x.F) == len(y.F) {
+			r := smt.True
+			for i := range x.F {
+				r = smt.And(r, ex.sameVal(x.F[i], y.F[i]))
+			}
+			return r
+		}
+	case *SliceV:
+		if y, ok := b.(*LazyV); ok {
+			return ex.sameVal(a, ex.forceAny(y))
+		}
+		if y, ok := b.(*SliceV); ok {
+			if x.Len != y.Len || (x.Arr == nil) != (y.Arr == nil) {
+				return smt.False
+			}
+			r := smt.True
+			for i := 0; i < x.Len; i++ {
+				r = smt.And(r, ex.sameVal(x.Arr.Elems[x.Off+i].V, y.Arr.Elems[y.Off+i].V))
+			}
+			return r
+		}
+	case *PtrV:
+		if y, ok := b.(*LazyV); ok {
+			return ex.sameVal(a, ex.force(y))
+		}
+		if y, ok := b.(*PtrV); ok {
+			if (x.C == nil) != (y.C == nil) {
+				return smt.False
+			}
+			if x.C == nil {
+				return smt.True
+			}
+			return ex.sameVal(ex.load(x), ex.load(y))
+		}
+	case *CoinsV:
+		// compare as amount functions over the union of supports
+		ca, cb := ex.asCoins(a), ex.asCoins(b)
+		return ex.forallDenom(func(d *smt.Term) *smt.Term { return smt.Eq(ex.amtOf(ca, d), ex.amtOf(cb, d)) }, ca, cb)
+	case *TimeV:
+		if y, ok := b.(*TimeV); ok {
+			return smt.Eq(x.Unix, y.Unix)
+		}
+	case *BytesV:
+		if y, ok := b.(*BytesV); ok && x == y {
+			return smt.True
+		}
+	case *OpaqueV, *NilV:
+		return smt.True
+	}
+	if lb, ok := b.(*LazyV); ok {
+		if isCoins(lb.T) {
+			return ex.sameVal(a, ex.asCoins(lb))
+		}
+	}
+	return smt.False
+}
+
+func (ex *Exec) forceAny(lz *LazyV) Val {
+	if _, ok := lz.T.Underlying().(*types.Slice); ok && !isCoins(lz.T) && !isByteSlice(lz.T) {
+		return ex.forceSlice(lz)
+	}
+	if isCoins(lz.T) {
+		return ex.asCoins(lz)
+	}
+	return ex.force(lz)
+}
+
+// CheckLemma produces the obligations of a pure lemma.
+func (e *Env) CheckLemma(l *Lemma) []*Oblig {
+	var out []*Oblig
+	var pkg *types.Package
+	for _, p := range e.Cfg.Prog.AllPackages() {
+		if p.Pkg.Path() == l.PkgPath {
+			pkg = p.Pkg
+		}
+	}
+	paths, _ := e.Explore(1000, func(ex *Exec) {
+		ev := &evalEnv{ex: ex, vars: map[string]tval{}, oldVars: map[string]tval{}, specs: e.Specs, pkg: pkg}
+		for i, v := range l.Vars {
+			ev.vars[v] = tval{smt.Var("lemma."+v, l.Sorts[i]), nil}
+		}
+		ex.oblige("lemma:"+l.Name, ev.bool(l.Expr), "")
+	})
+	for _, p := range paths {
+		out = append(out, p.Obligs...)
+		if p.Outcome != "return" {
+			out = append(out, &Oblig{Name: "lemma:" + l.Name, Goal: smt.False, Note: "lemma evaluation " + p.Outcome + ": " + p.Msg})
+		}
+	}
+	return out
+}
